@@ -41,6 +41,10 @@ def cases(chk, env):
     # implicit edges
     for k in range(30 if tier == "quick" else 400):
         out.append(S.random_graph_spec(rng, label="random"))
+    # a second run after touching / editing inputs: up-to-date steps count as finished dependencies,
+    # recorded glob items give edges
+    for k in range(15 if tier == "quick" else 150):
+        out.append(S.two_run_spec(rng, label="tworun"))
     return out
 
 
@@ -62,7 +66,7 @@ def run(chk, replay=None):
         chk.proof()
         S.probe_p13(env)
         specs = [replay["input"]] if replay else cases(chk, env)
-        stats, rrs, infos = S.drive(chk, env, "C10", specs, nontrivial)
+        stats, rrs, infos, specs = S.drive(chk, env, "C10", specs, nontrivial)
         chk.cov["distribution"] = stats
         chk.cov["p13_repaired_in_tree"] = env.p13_fixed
         for sp in specs[:2] + specs[-2:]:
